@@ -343,6 +343,8 @@ def run(chk, F):
     chk.run_rule("C09.release-raii", "ReclaimingBlock::drop returns the block; reclaim removes index entries, then cleans, then releases", 4, release_raii, F)
     chk.run_rule("C09.fifo", "clean queue pop_front/push_back; FifoPicker queues at the back and picks the front", 2, fifo, F)
     chk.run_rule("C09.fifo-evict-position", "the FIFO picker forgets exactly the block that was evicted", 1, fifo_evict_position, F)
+    from rules import C01 as _C01
+    chk.run_rule("C09.seq-tables", "reclaim removes an index entry only if it is not newer than the reclaimed one (remove_batch table); insert_inner keeps the newest", 5, _C01.seq_tables, F)
     chk.run_rule("C09.reinsertion", "a re-inserted entry keeps hash, length and sequence and is skipped when the key left the index", 4, reinsertion, F)
     chk.run_rule("C09.reinsertion-size-limit", "push_slice (re-insertion) accepts exactly the entry sizes push (insertion) accepts", 1, size_limit_siblings, F)
     chk.run_rule("C09.only-full", "only completely written blocks are handed to on_writing_finish", 1, only_full, F)
